@@ -22,6 +22,17 @@
 (*                    NaN in every bin without raising -> NaN; NaN in some *)
 (*                    bins -> those bins are skipped                       *)
 (*   loglike        : -sum(log(sigma*sqrt(2 pi))) - chi2/2                 *)
+(*   observation    : a parameter may live on the OBSERVATION instead of   *)
+(*                    the forward model (compile_params appends the        *)
+(*                    observation's fitted parameters after the model's):  *)
+(*                    an instrumental offset / scale that changes the      *)
+(*                    observation's `spectrum`.  The data side of chi2 is  *)
+(*                    then a function of the parameter vector too: every   *)
+(*                    evaluation compares the observation AS IT IS AFTER   *)
+(*                    THAT EVALUATION'S update_model (DataRead = "after"); *)
+(*                    a copy captured when compute_fit starts ("captured") *)
+(*                    or read before update_model ("before": one call      *)
+(*                    late) are the expected-counterexample variants       *)
 (* The transcendental constant -sum(log(sigma sqrt(2 pi))) is added by the *)
 (* harness; the specification carries h = chi2/2 as an exact rational.     *)
 (* The forward model is an exact linear toy  native_k = SUM_p C[p][k] v[p] *)
@@ -40,6 +51,10 @@ CONSTANTS
   UserSet,    \* [1..NP -> BOOLEAN]            a prior was given through set_prior
   UMode,      \* [1..NP -> {"lin","log"}]      its space (independent of ParMode)
   ULo, UHi,   \* [1..NP -> Int]                its bounds in its own space
+  ObsRole,    \* [1..NP -> {"model","offset","scale"}]  where the parameter lives: on the forward model, or on the
+              \*                               observation as an additive offset / a multiplicative scale of its spectrum
+  DataRead,   \* "after": chi2 reads the observation's spectrum after update_model (the code) | "before": before it
+              \*          (one evaluation late) | "captured": a copy taken when compute_fit started (never updated)
   WriteBy,    \* "prior": update_model applies prior.prior (the code) | "parmode": it exponentiates by the
               \*          parameter's mode (expected-counterexample variant)
   Val0,       \* [1..NP -> Int]                linear values before the first call
@@ -66,7 +81,10 @@ vars == <<val, cube, res, raised, hist>>
 view == <<val, cube, res, raised>>
 
 \* ------------------------------------------------------------------ compile
-FitSeq == SelectSeq([i \in 1..NP |-> i], LAMBDA p : FitFlag[p])     \* fitting_parameters
+IsObs(p) == ObsRole[p] # "model"
+\* fitting_parameters: the model's fitted parameters in declaration order, then the observation's
+FitSeq == SelectSeq([i \in 1..NP |-> i], LAMBDA p : FitFlag[p] /\ ~IsObs(p))
+          \o SelectSeq([i \in 1..NP |-> i], LAMBDA p : FitFlag[p] /\ IsObs(p))
 NF     == Len(FitSeq)
 PriorOf(p) == IF UserSet[p] THEN [mode |-> UMode[p], lo |-> ULo[p], hi |-> UHi[p]]       \* set_prior wins
               ELSE [mode |-> ParMode[p], lo |-> Lo[p], hi |-> Hi[p]]                    \* default from mode + bounds
@@ -79,15 +97,21 @@ PriorSample(pr, u) == UniformSample(Q(pr.lo), Q(pr.hi), u)              \* Prior
 \* -------------------------------------------------------------------- model
 RECURSIVE SumFn(_, _)
 SumFn(f, n) == IF n = 0 THEN 0 ELSE f[n] + SumFn(f, n - 1)
-Native(v, k) == SumFn([p \in 1..NP |-> Coef[p][k] * v[p]], NP)
+Native(v, k) == SumFn([p \in 1..NP |-> IF IsObs(p) THEN 0 ELSE Coef[p][k] * v[p]], NP)     \* model parameters only
 RECURSIVE SumOver(_, _)
 SumOver(f, S) == IF S = {} THEN 0 ELSE LET e == CHOOSE e \in S : TRUE IN f[e] + SumOver(f, S \ {e})
 BinMean(v, b) == Norm(SumOver([k \in 1..K |-> Native(v, k)], Bins[b]), Cardinality(Bins[b]))
-\* chi2 over the bins that can be compared (skip = the NaN bins)
-Chi2Skip(v, skip) == RSumSeq([b \in 1..Len(Bins) |->
+\* the observation's spectrum when its parameters hold the values vd: Data * scale + offset
+RECURSIVE ProdOver(_, _)
+ProdOver(f, S) == IF S = {} THEN 1 ELSE LET e == CHOOSE e \in S : TRUE IN f[e] * ProdOver(f, S \ {e})
+DataAt(vd, b) == Data[b] * ProdOver(vd, {p \in 1..NP : ObsRole[p] = "scale"})
+                 + SumOver(vd, {p \in 1..NP : ObsRole[p] = "offset"})
+\* chi2 over the bins that can be compared (skip = the NaN bins); v: values the model is evaluated at,
+\* vd: values the observation's spectrum is read at
+Chi2Skip(v, vd, skip) == RSumSeq([b \in 1..Len(Bins) |->
               IF b \in skip THEN RZero
-              ELSE LET z == RDiv(RSub(Q(Data[b]), BinMean(v, b)), Q(Sig[b])) IN RMul(z, z)])
-Chi2(v) == Chi2Skip(v, {})
+              ELSE LET z == RDiv(RSub(Q(DataAt(vd, b)), BinMean(v, b)), Q(Sig[b])) IN RMul(z, z)])
+Chi2(v, vd) == Chi2Skip(v, vd, {})
 Outcome(v) == IF SumOver(v, ChemSet) > ChemLimit THEN "InvalidChemistry"
               ELSE IF v[TLow] >= v[THigh] THEN "InvalidTemperature"
               ELSE "ok"
@@ -109,26 +133,32 @@ PriorCall(u) ==
     /\ UNCHANGED <<val, res, raised>>
     /\ hist' = Append(hist, [op |-> "prior", u |-> u, out |-> cube'])
 
-ResultOf(v2, x, inj) ==
+\* which values the data side of chi2 is read at
+DataSide(before, after) == IF DataRead = "after" THEN after ELSE IF DataRead = "before" THEN before ELSE Val0
+
+ResultOf(v2, vd, x, inj) ==
     LET oc == IF inj # "none" THEN inj ELSE Outcome(v2)
         c2 == IF oc = "NaNAll" THEN RZero                       \* nansum of nothing
-              ELSE IF oc = "NaNSome" THEN Chi2Skip(v2, NaNBins)
-              ELSE Chi2(v2)
+              ELSE IF oc = "NaNSome" THEN Chi2Skip(v2, vd, NaNBins)
+              ELSE Chi2(v2, vd)
         k  == ResultKind(oc, Caught, ZeroChi, AllNaN, c2)
     IN  Mk(k, IF k \in {"num", "part"} THEN RDiv(c2, Q(2)) ELSE RZero, x, inj)
 
 LogLike(x, inj) ==
     /\ val' = Written(val, x, 1)
-    /\ res' = ResultOf(val', x, inj)
+    /\ res' = ResultOf(val', DataSide(val, val'), x, inj)
     /\ raised' = (raised \/ res'.k = "raise")
     /\ UNCHANGED cube
     /\ hist' = Append(hist, [op |-> "loglike", x |-> x, inj |-> inj, k |-> res'.k, h |-> res'.h,
                              vals |-> val'])
 
-Vectors(n) == IF n = 2 THEN {<<a, b>> : a \in XSet[FitSeq[1]], b \in XSet[FitSeq[2]]}
+Vectors(n) == IF n = 4 THEN {<<a, b, c, d>> : a \in XSet[FitSeq[1]], b \in XSet[FitSeq[2]], c \in XSet[FitSeq[3]],
+                                                 d \in XSet[FitSeq[4]]}
+              ELSE IF n = 2 THEN {<<a, b>> : a \in XSet[FitSeq[1]], b \in XSet[FitSeq[2]]}
               ELSE IF n = 3 THEN {<<a, b, c>> : a \in XSet[FitSeq[1]], b \in XSet[FitSeq[2]], c \in XSet[FitSeq[3]]}
               ELSE {<<a>> : a \in XSet[FitSeq[1]]}
-UVectors(n) == IF n = 2 THEN {<<a, b>> : a \in UGrid, b \in UGrid}
+UVectors(n) == IF n = 4 THEN {<<a, b, c, d>> : a \in UGrid, b \in UGrid, c \in UGrid, d \in UGrid}
+               ELSE IF n = 2 THEN {<<a, b>> : a \in UGrid, b \in UGrid}
                ELSE IF n = 3 THEN {<<a, b, c>> : a \in UGrid, b \in UGrid, c \in UGrid}
                ELSE {<<a>> : a \in UGrid}
 
@@ -150,12 +180,14 @@ InvalidCall == ~PartialCall /\ (res.inj # "none" \/ Outcome(ExpV(res.x)) # "ok")
 
 ValidEqualsGaussian == (Called /\ ~InvalidCall /\ ~PartialCall) =>
                           /\ res.k = "num"
-                          /\ res.h = RDiv(Chi2(ExpV(res.x)), Q(2))      \* also: no carry-over from earlier calls
+                          \* model side AND data side at the values x describes: no carry-over from earlier
+                          \* calls, no frozen or late copy of the observation
+                          /\ res.h = RDiv(Chi2(ExpV(res.x), ExpV(res.x)), Q(2))
 InvalidNeverFinite  == (Called /\ InvalidCall) => res.k # "num"
 \* some bins NaN: non-finite, or the Gaussian over the comparable bins -- never anything else
 PartialSkipsOrNaN   == (Called /\ PartialCall) =>
                           \/ res.k = "nan"
-                          \/ res.k = "part" /\ res.h = RDiv(Chi2Skip(ExpV(res.x), NaNBins), Q(2))
+                          \/ res.k = "part" /\ res.h = RDiv(Chi2Skip(ExpV(res.x), ExpV(res.x), NaNBins), Q(2))
 NeverRaises         == ~raised /\ res.k # "raise"
 WrittenIsPriorOfX   == Called => \A p \in 1..NP : FitFlag[p] => val[p] = ExpV(res.x)[p]
 OnlyFittedWritten   == \A p \in 1..NP : ~FitFlag[p] => val[p] = Val0[p]
@@ -165,7 +197,10 @@ OrderIsFitOrder     == cube # <<>> =>
                                                   a == IF pr.lo <= pr.hi THEN pr.lo ELSE pr.hi
                                                   b == IF pr.lo <= pr.hi THEN pr.hi ELSE pr.lo
                                               IN  RLe(Q(a), cube[i]) /\ RLe(cube[i], Q(b))
-DeclarationOrder    == \A i \in 1..NF, j \in 1..NF : i < j => FitSeq[i] < FitSeq[j]
+\* the model's parameters first (declaration order), then the observation's (declaration order)
+DeclarationOrder    == \A i \in 1..NF, j \in 1..NF : i < j =>
+                          /\ (IsObs(FitSeq[i]) => IsObs(FitSeq[j]))
+                          /\ (IsObs(FitSeq[i]) = IsObs(FitSeq[j]) => FitSeq[i] < FitSeq[j])
 FitsInv             == Fits(res.h) /\ \A p \in 1..NP : val[p] < Big
 \* action property: a loglike call never depends on, nor disturbs, the unfitted parameters
 UnfittedFrozen == [][\A p \in 1..NP : ~FitFlag[p] => val'[p] = val[p]]_vars
